@@ -571,14 +571,17 @@ func (rc *rebuildCtx) analyseLoop(outer *symState, loop ast.Stmt, method string,
 			full := append(append(Cube{}, env.base...), rp.p.Cube...)
 			// position variable: the carried variable in the write position
 			for _, w := range rp.writes {
-				for s := range w.pos.C {
-					atSlot := eq(linSym(s), linSym(slotSym))
-					if isParam && !entailsCube(full, atSlot) {
-						viol = append(viol, fmt.Sprintf("the value parameter is inserted on {%s}, required exactly when %s = %s (it must land at ordinal slot+1)", rp.p.Cube, s, slotSym))
-					}
-					if !isParam && satOK(full, atSlot) {
-						viol = append(viol, fmt.Sprintf("an existing element is copied on {%s} although %s = %s there: the inserted value is not placed at its slot", rp.p.Cube, s, slotSym))
-					}
+				if w.pos == nil {
+					continue
+				}
+				// stated on the place that is written (whatever the counter that leads there counts):
+				// the parameter lands at ordinal slot+1, and nothing else does
+				atSlot := eq(w.pos, linSym(slotSym).plus(1))
+				if isParam && !entailsCube(full, atSlot) {
+					viol = append(viol, fmt.Sprintf("the value parameter is inserted on {%s} at ordinal %v, required ordinal %s+1", rp.p.Cube, w.pos, slotSym))
+				}
+				if !isParam && satOK(full, atSlot) {
+					viol = append(viol, fmt.Sprintf("an existing element is copied on {%s} to ordinal %v, which can be %s+1: the inserted value is not placed at its slot", rp.p.Cube, w.pos, slotSym))
 				}
 			}
 		}
